@@ -37,7 +37,7 @@ type C07Case struct {
 }
 
 func genC07Case(t *rapid.T) C07Case {
-	spec := genSSOWorld(t, worldOpts{minACS: 1, maxACS: 4, signingFlags: true, issuerModes: []string{"static", "static", "host"}, customSSO: true, maxSPs: 3,
+	spec := genSSOWorld(t, worldOpts{minACS: 1, maxACS: 4, signingFlags: true, issuerModes: []string{"static", "static", "host"}, customSSO: true, maxSPs: 3, entityIDChars: true,
 		bindings: []string{world.BindPost, world.BindRedirect, world.BindPost, world.BindRedirect, world.BindArtifact}})
 	for i := range spec.SPs {
 		spec.SPs[i].CertLayout = rapid.SampledFrom([]string{"plain", "plain", "wrapped64", "wrapped76", "padded", "indented"}).Draw(t, "mdcertlayout")
